@@ -81,7 +81,9 @@ static void battery(const Case &c) {
         size_t blen = inrange ? ol.len : std::min<size_t>(ol.len, 4);
         vp::Block src(blen);
         for (size_t i = 0; i < blen; i++) src.p[i] = rng.byte();
-        CALL(c, "store_part", rc = persistent_store_part(&in.st, src.p, ol.off, ol.len));
+        const uint8_t *from = src.p;
+        if (in.aux && inrange && ol.len && cfg.aux >= (long)ol.len && (ol.off + ol.len) % 3 == 0) { memcpy(in.aux, src.p, ol.len); from = in.aux; vp::cls("part-store-from-the-aux-buffer"); }   // the caller staged the data in the instance's own scratch buffer
+        CALL(c, "store_part", rc = persistent_store_part(&in.st, from, ol.off, ol.len));
         if (!inrange) {
             if (rc == PERSISTENT_ACCESS_SUCCESS) { F(c, "store_part:beyond-size-accepted", vp::fmt("offset %zu length %zu accepted", ol.off, ol.len)); return; }
             if (!M().log.empty()) { F(c, "store_part:refused-but-medium-touched", vp::fmt("offset %zu length %zu", ol.off, ol.len)); return; }
